@@ -49,7 +49,20 @@ class LazyHex:
 REAL_HEX = [False]     # obligations whose code parses the hex text again (bytes.fromhex) switch real rendering on
 
 
+def in_crosshair():
+    """True iff the CURRENT THREAD is the one CrossHair is executing symbolically (its tracer flag is process-wide, its state space
+    is thread-local: threads started by the code under test run natively and must not touch either)."""
+    try:
+        from crosshair.tracers import is_tracing
+        from crosshair.statespace import _THREAD_LOCALS
+    except Exception:
+        return False
+    return getattr(_THREAD_LOCALS, "space", None) is not None and is_tracing()
+
+
 def _realize(x):
+    if not in_crosshair():
+        return x          # (also: a NoTracing block left by another thread would hand CrossHair's tracer to that thread)
     try:
         from crosshair.core import realize
         return realize(x)
@@ -156,7 +169,7 @@ def _native_fromhex(s):
         from crosshair.tracers import NoTracing, is_tracing
     except Exception:
         return bytes.fromhex(s)
-    if not is_tracing():
+    if not in_crosshair():
         return bytes.fromhex(s)
     s = realize(s)
     with NoTracing():
@@ -227,7 +240,7 @@ def c_boundary(fn):
             from crosshair.tracers import NoTracing, is_tracing
         except Exception:
             return fn(*a, **k)
-        if not is_tracing():
+        if not in_crosshair():
             return fn(*a, **k)
         a = deep_realize(a)
         k = deep_realize(k)
@@ -379,7 +392,10 @@ class Transport:
             w.fault_hook(k, apdu)
         from sim.ledger import ProtocolViolation
         try:
-            return w.device.handle(apdu)
+            answer = w.device.handle(apdu)
+            if w.after_hook is not None:
+                w.after_hook(k, apdu)        # the device has carried the command out; its answer may get lost
+            return answer
         except ProtocolViolation as e:
             # the firmware answers a host that breaks the protocol with an error status
             w.violations.append(str(e))
@@ -398,6 +414,7 @@ class World:
         self.exchanges = 0
         self.violations = []
         self.fault_hook = None
+        self.after_hook = None
         self.connect_hook = None
 
     def get_dongle(self, *a, **k):
